@@ -208,8 +208,15 @@ def gen_case(world, tier, prop):
   shape = frng.choice(full) if frng.random() < 0.75 else frng.choice(degraded)
   fmt = frng.choice([None, None, None, 'exc', 'base'])
   nested = frng.random() < 0.3
+  nested_kind = {}
+  if nested and frng.random() < 0.6:
+    nested_kind = {'arg': frng.choice(['config', 'partial', 'list', 'dict', 'number',
+                                       'none', 'string', 'built', 'given']),
+                   'later': frng.random() < 0.5}
+    if frng.random() < 0.4:
+      nested_kind['prelude'] = frng.choice(['unconfig_ok', 'unconfig_fails'])
   case = {'defs': defs, 'root': root, 'shape': shape, 'fmt': fmt,
-          'nested': nested, 'only_uid': None,
+          'nested': nested, 'nested_kind': nested_kind, 'only_uid': None,
           'mutating': frng.random() < 0.25, 'sticky': frng.random() < 0.2,
           'refused': frng.random() < 0.2, 'late': use_late}
   erng = world.stream('edit')
@@ -771,16 +778,44 @@ def run(case):
   # ---- C05 clause 7: nested build ----------------------------------------
   if case.get('nested'):
     u = targets[len(targets) // 2] if targets else None
+    kind = case.get('nested_kind') or {}
     outcomes = []
+    sites = []
+
+    def attempt(r):
+      what = kind.get('arg', 'config')
+      arg = {'config': lambda: fdl.Config(dict, a=1),
+             'partial': lambda: fdl.Partial(dict, a=1),
+             'list': lambda: [fdl.Config(dict, a=1)],
+             'dict': lambda: {'k': fdl.Config(dict, a=1)},
+             'number': lambda: 7, 'none': lambda: None, 'string': lambda: 'abc',
+             'built': lambda: r,                 # the object just built
+             'given': lambda: (list(r.args.values()) or [0])[0],
+             }[what]()
+      try:
+        fdl.build(arg)
+        outcomes.append('accepted')
+      except Exception as e:  # pylint: disable=broad-except
+        outcomes.append(type(e).__name__)
 
     def nested(r, u=u):
-      if log_uid(r) == u and not outcomes:
-        for _ in range(2):
-          try:
-            fdl.build(fdl.Config(dict, a=1))
-            outcomes.append('accepted')
-          except Exception as e:  # pylint: disable=broad-except
-            outcomes.append(type(e).__name__)
+      first = log_uid(r) == u and not sites
+      later = bool(sites) and kind.get('later') and len(sites) < 3
+      if not (first or later):
+        return
+      sites.append(log_uid(r))
+      if first and kind.get('prelude'):
+        # the sanctioned nested build (auto_unconfig), succeeding or failing
+        # with the failure swallowed, BEFORE the plain attempts
+        try:
+          got = _unconfig_probe(kind['prelude'] == 'unconfig_fails')
+          if got != 'probe-ok':
+            outcomes.append('auto_unconfig returned ' + repr(got))
+        except _ProbeError:
+          pass
+        bump(probes, 'nested_after_' + kind['prelude'])
+      for _ in range(2):
+        attempt(r)
     del rec.log[:]
     rec.on_invoke = nested
     try:
@@ -791,10 +826,12 @@ def run(case):
     finally:
       rec.on_invoke = None
     bump(faults, 'nested_build')
+    bump(probes, 'nested_arg_' + kind.get('arg', 'config'))
     tag = dict(shape='nested', fmt=None, expect='full')
-    if 'accepted' in outcomes or len(outcomes) != 2:
+    if 'accepted' in outcomes or len(outcomes) != 2 * len(sites) or not sites:
       viols.append(V('C05', 'nested-build-accepted',
-                     f'fdl.build from inside callable uid {u}: {outcomes}', **tag))
+                     f'fdl.build({kind.get("arg", "config")}) from inside callable(s) uid '
+                     f'{sites} (prelude {kind.get("prelude")}): {outcomes}', **tag))
     elif err is not None:
       viols.append(V('C05', 'outer-build-broken-by-nested',
                      f'outer build raised {type(err).__name__}: '
@@ -810,6 +847,31 @@ def run(case):
                        f'after nested attempt: {type(e).__name__}', **tag))
   res['nontrivial'] = len(nodes) >= 2
   return res
+
+
+class _ProbeError(Exception):
+  pass
+
+
+def _probe_leaf(broken):
+  if broken:
+    raise _ProbeError('probe is broken')
+  return 'probe-ok'
+
+
+_UNCONFIG = []
+
+
+def _unconfig_probe(broken):
+  """auto_unconfig: the sanctioned way to build from inside a build."""
+  if not _UNCONFIG:
+    from fiddle.experimental import auto_config
+
+    @auto_config.auto_unconfig
+    def make_probe(broken):
+      return fdl.Config(_probe_leaf, broken)
+    _UNCONFIG.append(make_probe)
+  return _UNCONFIG[0](broken)
 
 
 def _all_values(root):
